@@ -33,6 +33,8 @@ ObsInit == [call |-> EmptyFun, sub |-> EmptyFun,
             ended |-> {},            \* server connections whose ServeHTTP returned
             closerStart |-> {}, closerEnd |-> {},
             dialsAfterClose |-> 0, dials |-> 0, srvCancels |-> {},
+            inWriter |-> EmptyFun,   \* library connection -> writer kind currently inside its write-lock section ("" if none)
+            lockViol |-> 0,          \* overlapping write sections / sections entered without the lock held
             scName |-> "",           \* name of the scenario (from the reset event)
             crashed |-> FALSE,       \* the process hosting the code under test died
             ctxMissing |-> {},       \* calls whose handler waited in vain for its context to be cancelled
@@ -96,6 +98,10 @@ ObsStep(o, e) ==
            [] e.kind = "chval" /\ e.dir = "s2c" ->
                 IF <<e.conn, e.chid>> \in o1.chanResp THEN o1 ELSE [o1 EXCEPT !.valBeforeResp = @ + 1]
            [] OTHER -> o1
+    [] e.ev = "h:wl.enter" ->
+         [o EXCEPT !.lockViol = IF Get(o.inWriter, e.conn, "") # "" \/ ~e.locked THEN @ + 1 ELSE @,
+                   !.inWriter = Upd(o.inWriter, e.conn, e.w)]
+    [] e.ev = "h:wl.exit" -> [o EXCEPT !.inWriter = Upd(o.inWriter, e.conn, "")]
     [] e.ev = "ProcessExit" -> [o EXCEPT !.crashed = TRUE]
     [] e.ev = "CtxMissing"  -> [o EXCEPT !.ctxMissing = @ \cup {e.call}]
     [] e.ev = "WireFault"  -> [o EXCEPT !.faults = @ + 1, !.faultAfterUp = TRUE]
@@ -156,7 +162,8 @@ Always_C08(o) ==
   \cup {<<"C08", "value-after-close", t>> : t \in {t \in Subs(o) : o.sub[t].afterClose}}
   \cup {<<"C08", "more-received-than-sent", t>> : t \in {t \in Subs(o) : o.sub[t].recv > o.sub[t].sent}}
   \cup {<<"C08", "not-a-prefix", t>> : t \in {t \in Subs(o) : ~o.sub[t].ordered \/ o.sub[t].foreign}}
-Always_C14(o) == IF o.badFrames > 0 THEN {<<"C14", "malformed-or-interleaved-frame", 0>>} ELSE {}
+Always_C14(o) == (IF o.badFrames > 0 THEN {<<"C14", "malformed-or-interleaved-frame", 0>>} ELSE {})
+                 \cup (IF o.lockViol > 0 THEN {<<"C14", "write-section-overlap-or-without-lock", 0>>} ELSE {})
 Always_C18(o) == IF o.dialsAfterClose > 0 THEN {<<"C18", "redial-after-close", 0>>} ELSE {}
 
 \* C05: redial discipline and error mapping
